@@ -213,4 +213,15 @@ class FlowSettings:
             return 'flow nlri afi missing'
         if self.safi is None:
             return 'flow nlri safi missing'
-        return ''
+        # `announce <afi> flow|flow-vpn ...`: the family is given by the command, what follows must agree with it.
+        # A flow-vpn without rd was sent with no route distinguisher at all, an rd in a plain flow was prepended to a
+        # SAFI 133 NLRI, and a prefix or component of the other AFI was packed in its own layout under this AFI.
+        from exabgp.bgp.message.update.nlri.flow import flow_family_error
+        from exabgp.bgp.message.update.nlri.qualifier import RouteDistinguisher
+
+        has_rd = self.rd is not None and self.rd is not RouteDistinguisher.NORD
+        if self.safi == SAFI.flow_vpn and not has_rd:
+            return 'flow-vpn route requires a route distinguisher (rd)'
+        if self.safi == SAFI.flow_ip and has_rd:
+            return 'rd is only valid in a flow-vpn route'
+        return flow_family_error(self.afi, self.rules)
